@@ -18,6 +18,8 @@ import (
 //   SEQ_PROFILE  profile JSON file           (generation mode)
 //   SEQ_N        number of histories          SEQ_SEED seed     SEQ_FIRST first history number
 //   SEQ_REPLAY   JSONL file of symbolic histories to execute instead of generating
+//   SEQ_MODE     "service": execute through the grpc.Service handlers (generated histories get ids s<seed>-<k> and
+//                mode "service"; replayed histories are forced into that mode; unset: a replayed history's own "mode" decides)
 func TestSeq(t *testing.T) {
 	slog.SetDefault(slog.New(slog.NewTextHandler(io.Discard, nil)))
 	out := os.Getenv("SEQ_OUT")
@@ -32,6 +34,10 @@ func TestSeq(t *testing.T) {
 	defer hf.Close()
 	defer pf.Close()
 	statePath := filepath.Join(out, "state.bin")
+	mode := os.Getenv("SEQ_MODE")
+	if mode == "direct" {
+		mode = ""
+	}
 	stats := map[string]int{}
 
 	emit := func(h *History, lines []string, panicMsg string) {
@@ -60,6 +66,9 @@ func TestSeq(t *testing.T) {
 			if err := json.Unmarshal(sc.Bytes(), &h); err != nil {
 				continue
 			}
+			if os.Getenv("SEQ_MODE") != "" {
+				h.Mode = mode
+			}
 			fmt.Fprintf(pf, "S %s\n", h.ID)
 			synctest.Test(t, func(t *testing.T) {
 				lines, p := RunHistory(&h, statePath, nil)
@@ -82,7 +91,10 @@ func TestSeq(t *testing.T) {
 	first, _ := strconv.Atoi(os.Getenv("SEQ_FIRST"))
 	for k := first; k < first+n; k++ {
 		g := NewGen(seed, uint64(k), &prof)
-		h := &History{ID: fmt.Sprintf("g%d-%d", seed, k), Cfg: g.Config()}
+		h := &History{ID: fmt.Sprintf("g%d-%d", seed, k), Cfg: g.Config(), Mode: mode}
+		if mode == "service" {
+			h.ID = fmt.Sprintf("s%d-%d", seed, k)
+		}
 		fmt.Fprintf(pf, "S %s\n", h.ID)
 		synctest.Test(t, func(t *testing.T) {
 			var prev *Ev
